@@ -950,7 +950,7 @@ def check_C16(run):
     q = Q(run)
     run.build()
     consts = dict(MaxN='3' if q else '4')
-    invs = ['NoLoss', 'OnlyIntact', 'SkipRecoversMore', 'AfterIsolatedDamage', 'AcceptIffWellFormed', 'EmitCase']
+    invs = ['NoLoss', 'OnlyIntact', 'SkipRecoversMore', 'AfterIsolatedDamage', 'AcceptIffWellFormed', 'IdxAcceptIffProduced', 'IdxReadNeverWrong', 'MigratePreserves', 'EmitCase']
     r = run.tlc('GenTools', store.cfg_text('Spec', consts, invs), 'tools', workers=4, timeout=1200)
     run.log('TLC tools: %d cases, ok=%s' % (r['distinct'], r['ok']))
     if not r['ok']:
